@@ -6,6 +6,15 @@ using namespace vh;
 #ifndef VH_STEPS
 #define VH_STEPS 2
 #endif
+#ifndef VH_NADDR
+#define VH_NADDR 3
+#endif
+#ifndef VH_NORD
+#define VH_NORD 15
+#endif
+#ifndef VH_STRBYTES
+#define VH_STRBYTES 2
+#endif
 #define NCOL 3
 #define MAXROW 3
 
@@ -52,19 +61,20 @@ extern "C" void vh_c15_frame() {
         } else if (ref.empty()) continue;
         else if (op == 1) {
             uint32_t r = nixsym_choice("row", (uint32_t)ref.size());
-            CellV v{(int64_t)nixsym_i64("i"), sym_name("s", 2, "xy"), nixsym_f64("d")};
+            CellV v{(int64_t)nixsym_i64("i"), sym_name("s", VH_STRBYTES, "xy"), nixsym_f64("d")};
             df.writeRow(r, {Variant(v.i), Variant(v.s), Variant(v.d)});
             ref[r] = v; nixsym_reach("written");
         } else if (op == 2) {              // one call writing any non-empty subset of the cells of a row, in any order, addressed by index and/or name
-            static const int ORD[15][3] = {{0,-1,-1},{1,-1,-1},{2,-1,-1},{0,1,-1},{1,0,-1},{0,2,-1},{2,0,-1},{1,2,-1},{2,1,-1},{0,1,2},{0,2,1},{1,0,2},{1,2,0},{2,0,1},{2,1,0}};
+            // single cells and complete rows first: the 3-step tier takes the first VH_NORD entries
+            static const int ORD[15][3] = {{0,-1,-1},{1,-1,-1},{2,-1,-1},{0,1,2},{0,2,1},{1,0,2},{1,2,0},{2,0,1},{2,1,0},{0,1,-1},{1,0,-1},{0,2,-1},{2,0,-1},{1,2,-1},{2,1,-1}};
             static const char *CN[3] = {"id", "name", "val"};
             uint32_t r = nixsym_choice("row", (uint32_t)ref.size());
-            uint32_t o = nixsym_choice("cells", 15);
-            uint32_t addr = nixsym_choice("addr", 3);         // 0: by index, 1: by name, 2: alternating
+            uint32_t o = nixsym_choice("cells", VH_NORD);
+            uint32_t addr = VH_NADDR == 1 ? 2u : nixsym_choice("addr", VH_NADDR);         // 0: by index, 1: by name, 2: alternating (the 3-step tier: alternating only)
             std::vector<Cell> cells; CellV nv = ref[r];
             for (int k = 0; k < 3 && ORD[o][k] >= 0; k++) {
                 int c = ORD[o][k]; Variant v;
-                if (c == 0) { nv.i = nixsym_i64("i"); v = Variant(nv.i); } else if (c == 1) { nv.s = sym_name("s", 2, "xy"); v = Variant(nv.s); } else { nv.d = nixsym_f64("d"); v = Variant(nv.d); }
+                if (c == 0) { nv.i = nixsym_i64("i"); v = Variant(nv.i); } else if (c == 1) { nv.s = sym_name("s", VH_STRBYTES, "xy"); v = Variant(nv.s); } else { nv.d = nixsym_f64("d"); v = Variant(nv.d); }
                 bool byname = addr == 1 || (addr == 2 && (k & 1));
                 cells.push_back(byname ? Cell(std::string(CN[c]), v) : Cell((unsigned)c, v));
             }
